@@ -309,3 +309,14 @@ PROPS["C21"] = {
     "trusted_base": ["kani::stub of global_side_metadata_base_address", "std::ptr::write_bytes / ptr::copy as modelled by CBMC"],
     "not_covered": ["32-bit chunked (discontiguous) update path", "extreme_assertions sanity mirror"],
 }
+
+PROPS["C22"] = {
+    "level": "other",
+    "anchors": [("find_prev_non_zero_value", "src/util/metadata/side_metadata/global.rs"), ("find_next_non_zero_value", "src/util/metadata/side_metadata/global.rs"),
+                ("scan_non_zero_values", "src/util/metadata/side_metadata/global.rs"),
+                ("find_last_non_zero_bit_in_metadata_bytes", "src/util/metadata/side_metadata/helpers.rs"),
+                ("scan_non_zero_bits_in_metadata_bytes", "src/util/metadata/side_metadata/helpers.rs")],
+    "kani": {"prefix": "c22_", "files": ["c22_search.rs", "side.rs", "mmapper.rs"], "timeout_quick": 1200, "timeout_thorough": 3600},
+    "functions": [],
+    "explanation": "x",
+}
